@@ -212,22 +212,38 @@ def phase(chk, families, nhist=None, ncyc=None):
     """The exact-interleaving tie of the small-step model, run as a phase of C02 / C06 / C07 (whose proof gates include Properties_impl.v):
     families is a subset of {"corpus", "hist", "cyclic"}."""
     sess = Sess(chk)
+    # The tie: ACCEPTANCE (default) - the observed trace of the real engine must be the log of SOME run of the model's general step relation
+    # msteps_gen (any queue discipline, any completion order), searched with the extracted enumerator enabled_gen (props/implacc.py); the theorems of
+    # Properties_impl.v are stated over exactly those runs.  VERIF_IMPL_TIE=exact selects the older, stronger-than-needed tie: identical output of
+    # the model's own deterministic loop and the engine (breaks on any change of a queue discipline).
+    if os.environ.get("VERIF_IMPL_TIE", "accept") != "exact":
+        from props import implacc
+        one = implacc.accept_history
+        chk.cov["impl_tie"] = "acceptance (msteps_gen run exists)"
+    else:
+        one = one_history
+        chk.cov["impl_tie"] = "exact (identical to the model's own loop)"
     if "corpus" in families:
-        one_history(chk, sess, STALE_SCAN, "stale-scan", "corpus", expect=["ok", "fail", "fail", "fail"])
-        one_history(chk, sess, ["db 0"] + STALE_SCAN[1:], "stale-scan-nodb", "corpus", expect=["ok", "fail", "fail", "fail"])
+        one(chk, sess, STALE_SCAN, "stale-scan", "corpus", expect=["ok", "fail", "fail", "fail"])
+        one(chk, sess, ["db 0"] + STALE_SCAN[1:], "stale-scan-nodb", "corpus", expect=["ok", "fail", "fail", "fail"])
         for i, L in enumerate(CORPUS):
-            one_history(chk, sess, L, "corpus%d" % i, "corpus")
+            one(chk, sess, L, "corpus%d" % i, "corpus")
     if "hist" in families:
         for i in range(nhist if nhist is not None else chk.n(100, 3000)):
             rng = random.Random(chk.rng.random())
             sc = None if i % 2 == 0 else SCHEDS[1 + (i // 2) % 2]
             L = E.gen_history(rng, sched=sc, nops=(3, 12))
-            one_history(chk, sess, L, "%s%d" % ("sync" if sc is None else "defer", i % 40), "impl gen_history seed=%d index=%d" % (chk.seed, i))
+            one(chk, sess, L, "%s%d" % ("sync" if sc is None else "defer", i % 40), "impl gen_history seed=%d index=%d" % (chk.seed, i))
     if "cyclic" in families:
         for i in range(ncyc if ncyc is not None else chk.n(80, 3000)):
             rng = random.Random(chk.rng.random())
             L = gen_cyclic(rng, SCHEDS[i % 3])
-            one_history(chk, sess, L, "cyc%d" % (i % 40), "impl gen_cyclic seed=%d index=%d" % (chk.seed, i))
+            one(chk, sess, L, "cyc%d" % (i % 40), "impl gen_cyclic seed=%d index=%d" % (chk.seed, i))
+    try:
+        from props import implacc as _ia
+        _ia.acc_close(sess)
+    except Exception:
+        pass
     sess.close()
     chk.cov["impl_phase"] = "small-step model Engine/Impl.v vs the real engine, identical line by line (families: %s)" % ", ".join(sorted(families))
 
